@@ -195,9 +195,11 @@ def _run(ctx, replay_scn):
         runs = [("basic", 3, b4, ["START", "STOP", "Kill"]), ("hook", 3, b4, None),
                 ("ctl", 2, ["sleep", "fork", "noready", "stuck", "done3", "nodone"], None)]
     else:
-        runs = [("basic", 4, b4, ["START", "STOP", "Kill"]), ("basic", 3, None, None),
-                ("hook", 4, ["sleep", "fork"], None), ("hook", 3, None, None),
-                ("ctl", 3, ["sleep", "fork", "exit3", "done3"], ["CONFIGURE", "Kill"]), ("ctl", 2, None, None)]
+        # (controllable tasks: the Kill goroutine has seven steps; three overlapping requests are beyond 20M states,
+        #  so their exhaustive bound stays at two requests at any instant - the replayed plans add the
+        #  CONFIGURE/START preamble in front of up to two Kills)
+        runs = [("basic", 4, ["fork", "crash"], ["START", "STOP", "Kill"]), ("basic", 3, None, None),
+                ("hook", 4, ["sleep", "fork"], None), ("hook", 3, None, None), ("ctl", 2, None, None)]
     scenarios = []
     predicted_new = []
     sid = 0
